@@ -127,6 +127,20 @@ func callRTypeMethod(fr *frame, rt rtype, name string, args []value) value {
 		return types.Implements(rt.t, it)
 	case "NumField":
 		return rt.t.Underlying().(*types.Struct).NumFields()
+	case "Bits":
+		switch kindOf(rt.t) {
+		case reflect.Int8, reflect.Uint8:
+			return 8
+		case reflect.Int16, reflect.Uint16:
+			return 16
+		case reflect.Int32, reflect.Uint32, reflect.Float32:
+			return 32
+		case reflect.Int, reflect.Uint, reflect.Int64, reflect.Uint64, reflect.Uintptr, reflect.Float64, reflect.Complex64:
+			return 64
+		case reflect.Complex128:
+			return 128
+		}
+		fr.rtPanic("reflect: Bits of non-arithmetic Type %s", rt.t)
 	}
 	panic(unsupported("reflect.Type method %s", name))
 }
@@ -285,5 +299,150 @@ func init() {
 	intrinsics["(reflect.Value).Bool"] = func(fr *frame, fn *ssa.Function, a []value) value { return rv(a[0]).v }
 	intrinsics["(reflect.Value).Int"] = func(fr *frame, fn *ssa.Function, a []value) value {
 		return fr.conv(types.Typ[types.Int64], rv(a[0]).t, rv(a[0]).v)
+	}
+	fieldOf := func(fr *frame, r rvalue, idx int) rvalue {
+		st, ok := r.t.Underlying().(*types.Struct)
+		if !ok {
+			fr.rtPanic("reflect: call of reflect.Value.Field on %s Value", kindOf(r.t))
+		}
+		sv, ok := r.v.(structure)
+		if !ok {
+			panic(unsupported("reflect.Value.Field on %T", r.v))
+		}
+		if idx < 0 || idx >= len(sv) {
+			fr.rtPanic("reflect: Field index out of range")
+		}
+		out := rvalue{t: st.Field(idx).Type(), v: sv[idx]}
+		if r.addr != nil {
+			if cur, ok := (*r.addr).(structure); ok {
+				out.addr = &cur[idx]
+			}
+		}
+		return out
+	}
+	intrinsics["(reflect.Value).NumField"] = func(fr *frame, fn *ssa.Function, a []value) value {
+		r := rv(a[0])
+		st, ok := r.t.Underlying().(*types.Struct)
+		if !ok {
+			fr.rtPanic("reflect: call of reflect.Value.NumField on %s Value", kindOf(r.t))
+		}
+		return st.NumFields()
+	}
+	intrinsics["(reflect.Value).Field"] = func(fr *frame, fn *ssa.Function, a []value) value {
+		return fieldOf(fr, rv(a[0]), int(asInt64(a[1])))
+	}
+	intrinsics["(reflect.Value).FieldByName"] = func(fr *frame, fn *ssa.Function, a []value) value {
+		r := rv(a[0])
+		name, ok := a[1].(string)
+		if !ok {
+			panic(unsupported("reflect.Value.FieldByName with a symbolic name"))
+		}
+		st, isStruct := r.t.Underlying().(*types.Struct)
+		if !isStruct {
+			fr.rtPanic("reflect: call of reflect.Value.FieldByName on %s Value", kindOf(r.t))
+		}
+		// direct fields first, then one level of embedded structs (breadth first as in reflect)
+		for k := 0; k < st.NumFields(); k++ {
+			if st.Field(k).Name() == name {
+				return fieldOf(fr, r, k)
+			}
+		}
+		for k := 0; k < st.NumFields(); k++ {
+			f := st.Field(k)
+			if !f.Embedded() {
+				continue
+			}
+			ft := f.Type()
+			if _, isPtr := ft.Underlying().(*types.Pointer); isPtr {
+				continue // would need a dereference; not used by the code under test
+			}
+			if est, ok := ft.Underlying().(*types.Struct); ok {
+				for j := 0; j < est.NumFields(); j++ {
+					if est.Field(j).Name() == name {
+						return fieldOf(fr, fieldOf(fr, r, k), j)
+					}
+				}
+			}
+		}
+		return rvalue{}
+	}
+	intrinsics["reflect.Indirect"] = func(fr *frame, fn *ssa.Function, a []value) value {
+		r := rv(a[0])
+		if r.t == nil {
+			return r
+		}
+		u, ok := r.t.Underlying().(*types.Pointer)
+		if !ok {
+			return r
+		}
+		p, ok := r.v.(*value)
+		if !ok {
+			panic(unsupported("reflect.Indirect on host pointer"))
+		}
+		if p == nil {
+			return rvalue{}
+		}
+		return rvalue{t: u.Elem(), v: load(u.Elem(), p), addr: p}
+	}
+	intrinsics["(reflect.Value).Uint"] = func(fr *frame, fn *ssa.Function, a []value) value {
+		return fr.conv(types.Typ[types.Uint64], rv(a[0]).t, rv(a[0]).v)
+	}
+	intrinsics["(reflect.Value).Float"] = func(fr *frame, fn *ssa.Function, a []value) value {
+		return fr.conv(types.Typ[types.Float64], rv(a[0]).t, rv(a[0]).v)
+	}
+	setter := func(name string, basic types.BasicKind) {
+		intrinsics["(reflect.Value).Set"+name] = func(fr *frame, fn *ssa.Function, a []value) value {
+			r := rv(a[0])
+			if r.addr == nil {
+				fr.rtPanic("reflect: reflect.Value.Set%s using unaddressable value", name)
+			}
+			store(r.t, r.addr, fr.conv(r.t, types.Typ[basic], a[1]))
+			return nil
+		}
+	}
+	setter("Int", types.Int64)
+	setter("Uint", types.Uint64)
+	setter("Float", types.Float64)
+	setter("Bool", types.Bool)
+	setter("String", types.String)
+	intrinsics["(reflect.Value).CanSet"] = func(fr *frame, fn *ssa.Function, a []value) value { return rv(a[0]).addr != nil }
+	intrinsics["(reflect.Value).CanAddr"] = func(fr *frame, fn *ssa.Function, a []value) value { return rv(a[0]).addr != nil }
+	intrinsics["(reflect.Value).CanInterface"] = func(fr *frame, fn *ssa.Function, a []value) value { return rv(a[0]).t != nil }
+	rtOf := func(v value) types.Type {
+		it, ok := v.(iface)
+		if !ok || it.t == nil {
+			panic(unsupported("nil reflect.Type"))
+		}
+		rt, ok := it.v.(rtype)
+		if !ok {
+			panic(unsupported("host reflect.Type %T", it.v))
+		}
+		return rt.t
+	}
+	intrinsics["reflect.MakeSlice"] = func(fr *frame, fn *ssa.Function, a []value) value {
+		t := rtOf(a[0])
+		st, ok := t.Underlying().(*types.Slice)
+		if !ok {
+			fr.rtPanic("reflect.MakeSlice of non-slice type")
+		}
+		n, c := int(asInt64(a[1])), int(asInt64(a[2]))
+		if n < 0 || c < n {
+			fr.rtPanic("reflect.MakeSlice: bad len/cap")
+		}
+		s := make([]value, n, c)
+		for k := range s {
+			s[k] = zero(st.Elem())
+		}
+		return rvalue{t: t, v: s}
+	}
+	intrinsics["reflect.Zero"] = func(fr *frame, fn *ssa.Function, a []value) value {
+		t := rtOf(a[0])
+		return rvalue{t: t, v: zero(t)}
+	}
+	intrinsics["reflect.New"] = func(fr *frame, fn *ssa.Function, a []value) value {
+		t := rtOf(a[0])
+		p := new(value)
+		*p = zero(t)
+		return rvalue{t: types.NewPointer(t), v: p}
 	}
 }
